@@ -370,7 +370,8 @@ def rename_nets(nl, m):
 # text
 # ---------------------------------------------------------------------------
 
-COMMENT_WORDS = ["note", "x", "gate", "todo", "1'b0", "a & b", "and g(a,b)", "wire w", "(", ")", "assign"]
+COMMENT_WORDS = ["note", "x", "gate", "todo", "1'b0", "a & b", "and g(a,b)", "wire w", "(", ")", "assign", "//", "http://a.b/c", "/ /", "* /"]
+LINE_COMMENT_WORDS = COMMENT_WORDS + ["/*", "*/", "/* x */"]
 
 
 def render(rng, nl, layout="free", comments=0.0, shuffle=True, split_decl=None):
@@ -394,9 +395,10 @@ def render(rng, nl, layout="free", comments=0.0, shuffle=True, split_decl=None):
 
     def comment():
         if comments and rng.random() < comments:
-            body = " ".join(rng.choice(COMMENT_WORDS) for _ in range(rng.randint(0, 3)))
             if rng.random() < 0.5:
+                body = " ".join(rng.choice(LINE_COMMENT_WORDS) for _ in range(rng.randint(0, 3)))
                 return f" // {body}\n"
+            body = " ".join(rng.choice(COMMENT_WORDS) for _ in range(rng.randint(0, 3)))
             return f" /* {body} */ "
         return ""
 
@@ -516,6 +518,12 @@ def render(rng, nl, layout="free", comments=0.0, shuffle=True, split_decl=None):
         ports.remove(nl["inputs"][-1])
     elif neg == "missing_port_output":
         ports.remove(nl["outputs"][-1])
+    elif neg == "wire_only_port":
+        # a port that is declared only as a wire (no direction)
+        cand = [w for w in nl["wires"] if w not in ports]
+        ports.append(cand[0] if cand else "zz_w")
+        if not cand:
+            body.insert(0, ["wire", "zz_w", ";"])
     if shuffle:
         rng.shuffle(ports)
     if not ports:
